@@ -645,10 +645,13 @@ def run(eng, rep):
                 "(soft_restart) -- is entailed by the path condition, decided by truth table over the atoms of the function with complementary "
                 "comparisons identified; counting data-flow proves exactly one nruns increment per run end on every break/continue/return of "
                 "solve_main (T3) and the threading of the run counter through solve (T4).")
-    rep.not_decided += ["'rho equals rhoend' needs the numerical invariant rho >= rhoend (only <= is entailed by the guard)",
-                        "whether soln.obj is the small value when averaging noise re-orders points",
+    rep.not_decided += ["whether soln.obj is the small value when averaging noise re-orders points",
                         "success is never attached to a non-finite objective: reduces to C08-1 (selection is NaN-total)"]
     rule_messages(eng, rep)
+    # 'rho has reached rhoend' is built under not (rho > rhoend) (C10-2); together with rho >= rhoend (interval reasoning over reduce_rho and the parameter
+    # table, shared with C18-8) the lower bound *equals* rhoend at that point
+    from .c18 import rule_rho_between_rhoend_and_rhobeg
+    rule_rho_between_rhoend_and_rhobeg(eng, rep, rule="C10-2b.rho-is-never-below-rhoend")
     rule_nruns(eng, rep)
     from .records import rule_mean_over_samples_run
     rule_mean_over_samples_run(eng, rep, "C10-1c.tested-value-is-the-mean-over-the-samples-actually-run")
